@@ -382,6 +382,12 @@ pub fn shapes(args: &Args) -> SubResult {
                     Some(sig) => format!("signal{sig}"),
                     None => format!("exit{}", s.code().unwrap_or(-1)),
                 };
+                if s.signal() == Some(9) {
+                    // SIGKILL comes from outside the process (the kernel's out-of-memory killer on an
+                    // exhausted machine, an outer limit): not an observation about the code under test
+                    eprintln!("MACHINERY: the child process of shape {scripts:?} was killed from outside (SIGKILL)");
+                    std::process::exit(2);
+                }
                 if s.code() == Some(2) {
                     // the child's own machinery gave up (e.g. the code under test blocks in a primitive the
                     // scheduler does not own): no verdict for this shape, and none is invented
